@@ -77,6 +77,9 @@ func (f *Frame) funcEnv(st, old *State) *Env {
 func (f *Frame) loopEnv(li *loopInfo, st *State) *Env {
 	env := f.funcEnv(st, f.entrySt)
 	env.loop = li
+	for k, v := range f.lets {
+		env.vars[k] = v
+	}
 	return env
 }
 
@@ -85,7 +88,19 @@ func (env *Env) bindLet(l *Let) error {
 	if err != nil {
 		return err
 	}
+	name := func(x *Val) *Val {
+		// a contract-level let is a named constant (keeps clause terms small)
+		if len(env.bound) > 0 || x.T == "" || len(x.T) < 40 || x.Typ == nil {
+			return x
+		}
+		nx := *x
+		nx.T = env.enc.ctx.define("let."+l.Names[0], sortOfVal(env.enc.ctx, x), x.T)
+		return &nx
+	}
 	if len(l.Names) == 1 {
+		if v.Tup == nil {
+			v = name(v)
+		}
 		env.vars[l.Names[0]] = v
 		return nil
 	}
@@ -216,6 +231,7 @@ func (env *Env) objVal(obj types.Object) (*Val, error) {
 				c.assert(fmt.Sprintf("(not (= %s nil))", g))
 				env.enc.heapInit("alloc", "(Array Ref Bool)", 0)
 				c.assert(fmt.Sprintf("(select alloc!0 %s)", g))
+				c.lateDecls = append(c.lateDecls, g)
 			}
 			a := &Addr{Base: g, CellT: o.Type()}
 			return &Val{T: env.enc.load(env.st, a), Typ: o.Type(), ConstLen: -1}, nil
@@ -460,6 +476,10 @@ func (env *Env) sliceNilCmp(op string, s *Val) (*Val, error) {
 }
 
 func sortOfVal(c *Ctx, v *Val) string {
+	if v.IsSet {
+		mt := v.Typ.Underlying().(*types.Map)
+		return fmt.Sprintf("(Array %s Bool)", c.sortOf(mt.Key()))
+	}
 	if v.T == "nil" {
 		return sortRef
 	}
@@ -690,6 +710,9 @@ func (env *Env) evalCall(e *Expr) (*Val, error) {
 					case *types.Func:
 						return env.applyGoFunc(o, nil, argsE)
 					}
+					if sf := env.enc.prog.Specs[fnE.Name]; sf != nil {
+						return env.applySpecFunc(sf, argsE)
+					}
 					return nil, fmt.Errorf("unknown function %s.%s", fnE.Args[0].Name, fnE.Name)
 				}
 			}
@@ -771,18 +794,34 @@ func (env *Env) applySpecFunc(sf *SpecFunc, argsE []*Expr) (*Val, error) {
 		return nil, err
 	}
 	if sf.Body != nil {
-		n := &Env{enc: env.enc, frame: nil, vars: map[string]*Val{}, st: env.st, old: env.old, res: res, bound: env.bound}
+		n := &Env{enc: env.enc, frame: nil, vars: map[string]*Val{}, st: env.st, old: env.old, res: res, bound: env.bound, ghost: env.ghost, depth: env.depth}
+		// arguments are bound by an SMT let so that the body does not repeat large terms
+		var binds []string
 		for i, p := range sf.Params {
-			n.vars[p.Name] = args[i]
+			a := args[i]
+			if len(a.T) > 24 {
+				name := c.freshName("a." + p.Name)
+				binds = append(binds, fmt.Sprintf("(%s %s)", name, a.T))
+				na := *a
+				na.T = name
+				a = &na
+			}
+			n.vars[p.Name] = a
 		}
 		v, err := n.eval(sf.Body)
 		if err != nil {
 			return nil, fmt.Errorf("spec func %s: %v", sf.Name, err)
 		}
 		if v.Untyped {
-			return env.coerce(v, rt)
+			if v, err = env.coerce(v, rt); err != nil {
+				return nil, err
+			}
 		}
-		return &Val{T: v.T, Typ: rt, ConstLen: -1}, nil
+		term := v.T
+		if len(binds) > 0 {
+			term = "(let (" + strings.Join(binds, " ") + ") " + term + ")"
+		}
+		return &Val{T: term, Typ: rt, ConstLen: -1}, nil
 	}
 	var sorts, terms []string
 	for i, a := range args {
@@ -935,6 +974,11 @@ func (env *Env) evalBuiltinCall(name string, argsE []*Expr) (*Val, error, bool) 
 			if isString(v.Typ) {
 				return &Val{T: "(slen " + v.T + ")", Typ: tInt, ConstLen: -1}, nil, true
 			}
+		case *types.Map:
+			mt := v.Typ.Underlying().(*types.Map)
+			hn, hs, _, _ := c.mapHeaps(v.Typ)
+			card := c.declFun(fmt.Sprintf("card$%d", c.typeID(mt)), []string{fmt.Sprintf("(Array %s Bool)", c.sortOf(mt.Key()))}, sortBV64)
+			return &Val{T: ite(eq(v.T, "nil"), "#x0000000000000000", "("+card+" "+sel(e.heapGet(env.st, hn, hs), v.T)+")"), Typ: tInt, ConstLen: -1}, nil, true
 		}
 		return nil, fmt.Errorf("len of %s is not supported in contracts", v.Typ), true
 	case "has":
@@ -955,6 +999,37 @@ func (env *Env) evalBuiltinCall(name string, argsE []*Expr) (*Val, error, bool) 
 		}
 		hn, hs, _, _ := c.mapHeaps(m.Typ)
 		return boolVal(and(not(eq(m.T, "nil")), sel(sel(e.heapGet(env.st, hn, hs), m.T), k.T))), nil, true
+	case "keys":
+		// the key set of a map as a value (Array K Bool); compare with setof(...)
+		m, err := arg(0)
+		if err != nil {
+			return nil, err, true
+		}
+		mt, ok := m.Typ.Underlying().(*types.Map)
+		if !ok {
+			return nil, fmt.Errorf("keys: not a map"), true
+		}
+		hn, hs, _, _ := c.mapHeaps(m.Typ)
+		return &Val{T: sel(e.heapGet(env.st, hn, hs), m.T), Typ: types.NewMap(mt.Key(), types.Typ[types.Bool]), ConstLen: -1, IsSet: true}, nil, true
+	case "setof":
+		// setof(k1, k2, ...): the finite set of the given keys; needs at least one element
+		if len(argsE) == 0 {
+			return nil, fmt.Errorf("setof needs at least one element"), true
+		}
+		first, err := arg(0)
+		if err != nil {
+			return nil, err, true
+		}
+		kt := first.Typ
+		term := fmt.Sprintf("((as const (Array %s Bool)) false)", c.sortOf(kt))
+		for i := range argsE {
+			v, err := arg(i)
+			if err != nil {
+				return nil, err, true
+			}
+			term = store(term, v.T, "true")
+		}
+		return &Val{T: term, Typ: types.NewMap(kt, types.Typ[types.Bool]), ConstLen: -1, IsSet: true}, nil, true
 	case "emptymap":
 		m, err := arg(0)
 		if err != nil {
